@@ -110,6 +110,17 @@ def oracles(scn, raw):
         elif src == 'mgr' and ev == 'Spawn':
             outgoing.add(e['peer'])
 
+    mgr_states = [(e['seq'], e['peers']) for e in raw if e['src'] == 'mgr' and 'peers' in e]
+
+    def mgr_choked(a, seq):
+        last = True
+        for sq, ps in mgr_states:
+            if sq > seq:
+                break
+            if a.split('#')[0] in ps:
+                last = ps[a.split('#')[0]]['ac']
+        return last
+
     def good_after(seq):
         for dseq, good, bad, files in disks:
             if dseq > seq:
@@ -182,7 +193,10 @@ def oracles(scn, raw):
                     why = 'is outside the piece or longer than 16 KiB'
                 elif i not in good_after(seq):
                     why = 'names a piece that is not stored'
-                elif not unch:
+                elif not unch and mgr_choked(a, seq):
+                    # (choked = as the peer has been told AND as the manager holds it: an Unchoke that is decided
+                    #  but still on its way to the wire does not make the answer a violation, same reading as
+                    #  ServeOnlyUnchoked in Swarm.tla)
                     why = 'was sent while the peer was choked'
                 if why:
                     out.append(('C09', 'Piece%s sent to %s %s' % (tup, a, why)))
@@ -599,9 +613,9 @@ def check_c08(tier, replay=None):
 def check_c09(tier, replay=None):
     m = mult(tier)
     plan = [(G.upload, 36 * m, {}), (G.optimistic, 6 * m, {}), (G.delayed_upload, 10 * m, {}), ('model', 12 * m, {})]
-    return swarm_check('C09', tier, plan, need_actions=('HRequest', 'MRequest', 'MRotate', 'HBroadState'), kinds= ['Bitfield', 'Request', 'Interested', 'NotInterested'] if tier == 'quick' else ['Unchoke', 'Bitfield', 'Piece', 'Request', 'Interested'],
+    return swarm_check('C09', tier, plan, need_actions=('HRequest', 'MRequest', 'MRotate', 'HBroadState'), kinds= ['Bitfield', 'Request', 'Interested', 'NotInterested'] if tier == 'quick' else ['Unchoke', 'Choke', 'Bitfield', 'Piece', 'Request', 'Interested', 'NotInterested'],
                        design_over=dict(Peers='{a}', NPieces=2, NBlocks='N1x2', Own0='{1}', Fuel=5, BFMenu='{{2}}', TickFuel=1, Rates='{0}') if tier == 'quick'
-                       else dict(NPieces=2, NBlocks='N1x2', Own0='{1}', Fuel=4, BFMenu='{{2}, {}}', TickFuel=1, Rates='{0}', MaxQ=2),
+                       else dict(Peers='{a}', NPieces=2, NBlocks='N1x2', Own0='{1}', Fuel=8, BFMenu='{{2}, {}}', TickFuel=2, Rates='{0}'),   # 1.6 M states, 2 min
                        vacuity={'pieces_served': 15}, replay=replay,
                        rule='C09: after a download a leecher requests in-range, zero-length, 16 KiB, over-long, out-of-range, wrapping (begin+len >= 2^32), unknown-index and '
                             'not-owned ranges, before and after being choked by a rotation; every Piece frame on the wire must answer an outstanding request with the stored bytes while unchoked.')
@@ -629,8 +643,8 @@ def check_c11(tier, replay=None):
 def check_c12(tier, replay=None):
     m = mult(tier)
     plan = [(G.adversarial, 50 * m, {}), (G.honest, 6 * m, {}), (G.reassign, 30 * m, {}), (G.stale_choke, 10 * m, {}), (G.choke_race, 30 * m, {}), (G.dupaddr, 10 * m, {}), (G.endgame_cancel, 8 * m, {}), (G.nothing_to_assign, 10 * m, {}), (G.choked_delivery, 8 * m, {}), (G.stale_kill, 10 * m, {}), (G.delayed_adversarial, 20 * m, {}), (G.delayed_reassign, 12 * m, {}), ('model', 30 * m, {})]
-    return swarm_check('C12', tier, plan, need_actions=('MUnchoke', 'MChoke', 'MPieceDone', 'MKill'), kinds= ['Unchoke', 'Choke', 'Bitfield', 'Piece'] if tier == 'quick' else ['Unchoke', 'Choke', 'Bitfield', 'Piece', 'Have', 'Bad'],
-                       design_over=dict(Fuel=3, BFMenu='{{1, 2}}') if tier == 'quick' else dict(Fuel=4, MaxQ=2),
+    return swarm_check('C12', tier, plan, need_actions=('MUnchoke', 'MChoke', 'MPieceDone', 'MKill'), kinds= ['Unchoke', 'Choke', 'Bitfield', 'Piece'] if tier == 'quick' else ['Unchoke', 'Choke', 'Bitfield', 'Piece', 'Have'],
+                       design_over=dict(Fuel=3, BFMenu='{{1, 2}}') if tier == 'quick' else dict(Fuel=3, BFMenu='{{1, 2}, {1}}'),   # 2.3 M states, 4 min
                        vacuity={'mgr_events': 500, 'completions': 5}, replay=replay,
                        rule='C12: repeated/out-of-order choke, unchoke, have, bitfield, blocks, disconnects over several peers; the whole manager state after every command must be '
                             'the one the specification action produces, ReservedBacked/HaveStable/NoPanic evaluated in every state.')
